@@ -135,6 +135,27 @@ func (s *segment) setupIndex() (err error) {
 			return err
 		}
 	}
+	// The log is written before the index and a segment is replaced by two
+	// renames (log, then index), so after an unclean shutdown the index may
+	// lack entries for the tail of the log or belong to the previous log file.
+	// In both cases the last index entry does not end where the log ends:
+	// recover the index from the log.
+	if indexedEnd(lastEntry) != s.position {
+		if err := s.rebuildIndex(); err != nil {
+			return errors.Wrap(err, "failed to recover index from log")
+		}
+		lastEntry, err = s.Index.InitializePosition()
+		if err != nil {
+			return errors.Wrap(err, "failed to initialize recovered index")
+		}
+		// Anything after the last complete message is a torn write.
+		if end := indexedEnd(lastEntry); end < s.position {
+			if err := s.log.Truncate(end); err != nil {
+				return errors.Wrap(err, "failed to truncate torn log tail")
+			}
+			s.position = end
+		}
+	}
 	// If lastEntry is nil, the index is empty.
 	if lastEntry != nil {
 		s.lastOffset = lastEntry.Offset
@@ -148,6 +169,15 @@ func (s *segment) setupIndex() (err error) {
 		s.firstWriteTime = firstEntry.Timestamp
 	}
 	return nil
+}
+
+// indexedEnd returns the log position following the message of the given
+// (last) index entry or 0 if there is no entry.
+func indexedEnd(lastEntry *entry) int64 {
+	if lastEntry == nil {
+		return 0
+	}
+	return lastEntry.Position + int64(lastEntry.Size)
 }
 
 // rebuildIndex rebuilds the index by scanning the log file.
